@@ -138,4 +138,19 @@ PLANS = {
     "C04": cosim_plan(_SAFETY_EXCL), "C05": cosim_plan(), "C06": cosim_plan(_SAFETY_EXCL, "ae"), "C07": cosim_plan(_SAFETY_EXCL),
     "C08": cosim_plan(_SAFETY_EXCL, "rv"), "C09": cosim_plan(), "C10": cosim_plan(_SAFETY_EXCL), "C11": cosim_plan(_SAFETY_EXCL, "is"),
     "C14": cosim_plan(_SAFETY_EXCL), "C15": cosim_plan(), "C16": cosim_plan(), "C17": cosim_plan(),
+    "C18": {
+        "harness": ["apidiff", "cosim"],
+        "drivers": lambda ctx: [{"name": "apidiff", "cmd": [os.path.join(HB, "apidiff"), "-seed", str(ctx.seed),
+                                                            "-n", "60" if ctx.tier == "quick" else "1500"]}]
+                               + cosim_drivers()(ctx),
+        "rule": "bounded programs of public API calls (start/stop/restart in any order, bootstrap valid/invalid, submissions of every "
+                "operation type incl. an invalid one, add/remove server, Status().State.String() of every state, Configuration().String()) "
+                "on node 0 of 1- and 3-voter clusters with real short timers and a direct in-process transport; each program in its own "
+                "child process under a 20 s watchdog: panic, exit, hang, a future unresolved after its timeout, or a committed and applied "
+                "membership change whose future timed out while the submitter stayed leader is a violation; 14 scripted programs first. "
+                + COSIM_RULE,
+        "assumptions": ["absence of panics/exits/hangs is observed on the explored programs, not proved",
+                        "timers are real (40 ms election timeout): which role a node has at a call is not controlled"],
+        "nontrivial": lambda l: False,
+    },
 }
